@@ -40,8 +40,14 @@ func RandIsInput() {
 // IntRange bounds what Int() may return (it is used modulo small numbers).
 var IntRange = 1
 
+// FreeIntn, when set, decides Intn outside a controlled execution (sequential harnesses).
+var FreeIntn func(n int) int
+
 func Intn(n int) int {
 	if sched.E == nil {
+		if FreeIntn != nil {
+			return FreeIntn(n)
+		}
 		return rand.Intn(n)
 	}
 	if n <= 0 {
